@@ -117,11 +117,25 @@ def run(tier, seed):
         tr = vlib.split_traces(evs)
         if tr and i == 0:
             v.sample({"history_events": [{k: e[k] for k in e if k in ("ev", "run_id", "name", "req", "real", "errc", "port", "ok")} for e in tr[1][:25]]})
+    # 3. grouped tcp proxies acquire through the same manager (fixed and server-chosen ports): group histories of the real frps
+    #    validated against Trace_FrpsGroups, whose probes compare the manager's used set with the open groups
+    if not v.violations:
+        import checks.sessions_common as sc
+        tf = d / "groups-tcp.ndjson"
+        p = vlib.run_driver(drv, ["groups", "-seed", seed * 10 + 7, "-n", 4 if tier == "quick" else 30, "-steps", 10, "-kind", "tcp", "-out", tf], timeout=2400,
+                            env_extra=vlib.trace_env("Trace_FrpsGroups"), ok_codes=(0, 2))
+        gstats = {}
+        sc.parse_stats(p.stdout, gstats)
+        ok = sc.validate(v, "Trace_FrpsGroups", (vlib.SPEC / "Trace_FrpsGroups.cfg").read_text(), tf, "groups[tcp]")
+        if p.returncode != 0 and ok:
+            raise vlib.Infra(f"groups driver died (exit {p.returncode}) without a trace-level violation:\n{p.stderr[-1500:]}")
+        for k, val in gstats.items():
+            stats_all["group_" + k] = val
     nontrivial = stats_all.get("gate_hit", 0) + stats_all.get("concurrent", 0) + stats_all.get("squat", 0) + stats_all.get("drop", 0)
     v.add_cov(evaluations=stats_all.get("register", 0) + stats_all.get("close", 0), distinct_nontrivial=nontrivial,
               rule="histories = seeded random register/close/squat/drop/concurrent/gate-scheduled operations by 2-3 scripted clients on a real frps; "
                    "non-trivial = operations that were gate-scheduled (parked between Acquire and Listen while others act), issued concurrently, "
-                   "ran against an externally squatted port, or dropped a session with live proxies",
+                   "ran against an externally squatted port, or dropped a session with live proxies; plus tcp group histories (fixed and server-chosen port) whose probes compare the manager's used ports with the open groups",
               driver_stats=stats_all)
     v.assumptions += ["OS port state is modelled per protocol on loopback; external squatters act only at quiescent points or while the gated registration is parked",
                       "the 24h reserved-port expiry worker is not exercised",
@@ -132,6 +146,14 @@ def run(tier, seed):
 def replay(path):
     v = vlib.Verdict(PROP, "quick", 0, "model_checking")
     ok = False
+    evs0 = vlib.read_ndjson(path)
+    if evs0 and evs0[0].get("ev") == "reset" and "kind" in evs0[0] and "maxq" not in evs0[0]:
+        import checks.sessions_common as sc
+        sc.validate(v, "Trace_FrpsGroups", (vlib.SPEC / "Trace_FrpsGroups.cfg").read_text(), path, "replay")
+        v.add_cov(states=1, transitions=1)
+        v.sample({"replayed": str(path)})
+        v.finish()
+        return
     for cfgv in [(2, 3, 4), (1, 2, 3), (0, 3, 4), (3, 4, 5)]:
         evs = vlib.read_ndjson(path)
         if evs and evs[0].get("ev") == "reset" and (evs[0].get("maxq"), len(evs[0].get("allow", [])), evs[0].get("universe")) != cfgv:
